@@ -45,7 +45,7 @@ fn step(d: &Dec, r: &Recipe, i: usize, lim: Limits) -> (Dec, &'static str) {
         n.point = (knob >> 8) as i64 % 600 - 300;
         return (n, "from-zero");
     }
-    let which = pick_w((knob >> 16) as u16, &[25, 15, 15, 15, 8, 10, 12]);
+    let which = pick_w((knob >> 16) as u16, &[22, 13, 13, 13, 8, 20, 11]);
     match which {
         0 => {
             let l = n.digits.len();
@@ -120,11 +120,39 @@ pub fn run(ctx: &Ctx) -> i32 {
             if prev.cmp(&d) == Ordering::Greater {
                 return Err(Failure::harness(format!("generator produced a decreasing step ({name})"), json!({})));
             }
-            if d.point.abs() > 2_000_000_000 {
-                break;
-            }
             let sel = gen::mix(r.a ^ i as u64) as u16;
-            let (int, frac, exp, _lay) = layout(&d.digits, d.point, sel, r.k[i % 4], false);
+            let (mut int, mut frac, mut exp, _lay) = layout(&d.digits, d.point, sel, r.k[i % 4], false);
+            if Dec::from_input(&int, &frac, exp as i64) != d {
+                // the exponent of this layout does not fit an i32 (values next to 10^+-2^31): use a layout that
+                // denotes the value exactly - a fraction with just enough leading zeros, or an integer with
+                // trailing zeros - or end the chain
+                let digits: Vec<u8> = d.digits.iter().map(|x| x + b'0').collect();
+                let lo = i32::MIN as i64;
+                let hi = i32::MAX as i64;
+                if d.point < lo && lo - d.point <= 4000 {
+                    let z = (lo - d.point) as usize + (r.k[i % 4] % 3) as usize;
+                    frac = vec![b'0'; z];
+                    frac.extend(&digits);
+                    int = Vec::new();
+                    exp = (d.point + z as i64) as i32;
+                } else if d.point - (digits.len() as i64) > hi && d.point - digits.len() as i64 - hi <= 4000 {
+                    let t = (d.point - digits.len() as i64 - hi) as usize;
+                    int = digits.clone();
+                    int.extend(std::iter::repeat(b'0').take(t));
+                    frac = Vec::new();
+                    exp = i32::MAX;
+                } else if d.point >= lo && d.point <= hi {
+                    int = Vec::new();
+                    frac = digits.clone();
+                    exp = d.point as i32;
+                } else {
+                    break;
+                }
+                if Dec::from_input(&int, &frac, exp as i64) != d {
+                    break;
+                }
+                stats.count("extreme-exponent-exact-layout");
+            }
             chain.push((int, frac, exp, d, name));
         }
         let mut prev_bits: Option<[u64; 8]> = None;
